@@ -4,13 +4,27 @@
            at commit ts c, and no lock is left; not `mixed` ⇒ never a data record next to a rollback record);
            the store kernel: committing / rolling back a lock keeps "never both" (NoMix) when the transaction has no
            record yet, a prewrite only takes a lock on a key where it has none, a rollback leaves the marker that
-           rejects a late prewrite; resolving with the reported status writes exactly that status.
+           rejects a late prewrite; resolving with the reported status writes exactly that status;
+           `reachable_never_both`: in every store state reachable by any command sequence respecting the callers'
+           contract (whatever the client did before it crashed, whatever recovery did after), no key holds a data
+           record next to a rollback record of one transaction.
+           `percolator_atomicity`: for EVERY command sequence — any number of clients, keys, crashes at any point (a crash
+           is just the owner's commands stopping; any prefix is a command sequence), any recovery traffic — in which the
+           commands carrying the transaction's start ts obey the owner/resolver discipline `Disc` (a secondary is
+           committed only after the primary is committed at that ts, or in the batch that commits the primary's prewrite
+           lock; rolled back only after the primary is rolled back, or with/on the primary), the final store is
+           all-or-nothing: no key has a data record of the transaction while another has a rollback record, and all its
+           data records carry one commit ts.  `Disc` is what rules 2/3 and the resolver rule of the C04 monitor check on
+           every recorded request stream of the real client.
   partial  `crash_ack_consistent` for the committer model (every crash index) is not built: the crash enumeration of
            checks/c02.py explores it on the real client and the judge applies the oracle to every final state.
 -/
 import ClientGoVerif.Proofs.MvccInv
 import ClientGoVerif.Proofs.MvccLocks
 import ClientGoVerif.Proofs.Perc
+import ClientGoVerif.Proofs.MvccReach
+import ClientGoVerif.Proofs.MvccTemporal
+import ClientGoVerif.Proofs.MvccAtomic
 namespace CGV.Props.C02
 open CGV CGV.Mvcc CGV.Perc
 
@@ -34,6 +48,64 @@ theorem rollback_blocks_late_prewrite (s : Store) (r : PrewriteReq) (m : Mutatio
     (hm : ∃ w ∈ (getEntry s.kv m.key).writes, w.vt = .rollback ∧ w.commitTS = r.startTS)
     (hown : ∀ l, (getEntry s.kv m.key).lock = some l → l.startTS = r.startTS → l.op = .pessimisticLock) :
     ∃ e, prewriteMutation s r m act = .error e := prewrite_after_rollback_rejected s r m act hd hm hown
+
+/-- the store half of all-or-nothing, for every reachable state: whatever prefix of the commit protocol ran before
+    the crash and whatever recovery commands ran after it, no key ends with both outcomes for one transaction -/
+theorem reachable_never_both (s : Store) (h : Reachable s) : ∀ p ∈ s.kv, NoMix p.2.writes :=
+  fun p hp => (h.entries p hp).nomix
+
+/-- an applied commit is durable: the commit record of a transaction on a key is still there after ANY later command
+    sequence respecting the callers' contract — other clients' traffic, every recovery path (status check, resolve,
+    cleanup, rollback requests for this very transaction) — as long as GC / destroy-range do not run over it and no
+    command writes at its version (distinct timestamps).  With `reachable_never_both` no rollback record of the
+    transaction can appear next to it. -/
+theorem applied_commit_is_durable (w : Write) (k : Bytes) (s : Store) (cs : List Cmd) (hs : SInv s)
+    (hok : OkAll s cs) (hg : GuardAll (fun _ lab => lab.keepsRecord w) k s cs) (hw : w ∈ (getEntry s.kv k).writes) :
+    w ∈ (getEntry (runAll s cs).kv k).writes ∧ NoMix (getEntry (runAll s cs).kv k).writes :=
+  ⟨runAll_record_stays w k s cs hs hok hg hw, ((runAll_inv s cs hs hok).2 k).nomix⟩
+
+/-- one commit timestamp per key: in every reachable state a transaction has at most one record on a key -/
+theorem one_record_per_txn_per_key (s : Store) (h : Reachable s) (k : Bytes) :
+    ∀ w1 ∈ (getEntry s.kv k).writes, ∀ w2 ∈ (getEntry s.kv k).writes, w1.startTS = w2.startTS → w1 = w2 :=
+  h.uniq k
+
+/-- the outcome on a key is final: whatever command runs next, if the transaction already has a record on the key
+    (commit record or rollback marker), the step the key takes is not a commit, rollback, marker or lock step of it -/
+theorem outcome_on_key_is_final (s : Store) (c : Cmd) (hs : SInv s) (hok : c.Ok s) (k : Bytes) (T : Nat)
+    (hrec : ∃ w ∈ (getEntry s.kv k).writes, w.startTS = T) :
+    ∃ lab, c.labels k lab ∧ KStep (getEntry s.kv k) lab (getEntry (c.run s).kv k) ∧ lab.txn ≠ some T := by
+  obtain ⟨lab, hlab, hst⟩ := (run_refines s c hs hok).2 k
+  exact ⟨lab, hlab, hst, hst.final (hs.2 k) hrec⟩
+
+/-- all-or-nothing across keys, for every run: from the empty store, after ANY command list respecting the callers'
+    contract (`OkAll`) in which the commands of transaction `T` (primary `p`) obey the discipline and nothing removes
+    `T`'s record from the primary (`DiscAll`): (1) no key carries a data record of `T` while some key carries a rollback
+    record of `T`; (2) all data records of `T` have the same commit ts -/
+theorem percolator_atomicity (T : Nat) (p : Bytes) (cs : List Cmd) (hok : OkAll {} cs) (hd : DiscAll T p {} cs) :
+    let s := runAll {} cs
+    (∀ k1 k2 C, HasData (getEntry s.kv k1) T C → HasRb (getEntry s.kv k2) T → False) ∧
+    (∀ k1 k2 C1 C2, HasData (getEntry s.kv k1) T C1 → HasData (getEntry s.kv k2) T C2 → C1 = C2) := by
+  intro s
+  have ha : Atomic T p s := runAll_atomic T p {} cs SInv.empty hok hd (Atomic.empty T p)
+  have hr : Reachable s := Reachable.init.runAll cs hok
+  exact ⟨fun k1 k2 C h1 h2 => ha.never_mixed hr.inv k1 k2 C h1 h2,
+    fun k1 k2 C1 C2 h1 h2 => ha.one_commit_ts (hr.uniq p) k1 k2 C1 C2 h1 h2⟩
+
+/-- non-vacuity: prewrite of two keys, commit of the primary, commit of the secondary obey the discipline -/
+def demoRun : List Cmd :=
+  [Cmd.prewrite { mutations := [⟨.put, [0x61], [1], .none⟩, ⟨.put, [0x62], [2], .none⟩], primary := [0x61],
+                  startTS := 10, ttl := 3000 },
+   Cmd.commit [[0x61]] 10 20, Cmd.commit [[0x62]] 10 20]
+
+example : OkAll {} demoRun := by simp [OkAll, Cmd.Ok, demoRun]
+
+example : DiscAll 10 [0x61] {} demoRun := by
+  refine ⟨trivial, ?_, ?_, ?_, ?_, ?_, trivial⟩
+  · rintro lab (rfl | rfl) <;> simp [KLabel.txn, KLabel.keepsTxn, KLabel.keepsRecord]
+  · intro _; right; exact ⟨by simp, _, rfl, rfl, by decide⟩
+  · rintro lab (rfl | ⟨_, rfl⟩) <;> simp [KLabel.txn, KLabel.keepsTxn, KLabel.keepsRecord]
+  · intro _; left; exact ⟨⟨.put, 10, 20, [1]⟩, by decide, rfl, by decide, rfl⟩
+  · rintro lab (rfl | ⟨_, rfl⟩) <;> simp [KLabel.txn, KLabel.keepsTxn, KLabel.keepsRecord]
 
 /-- recovery by resolve removes the lock it resolves (commit or rollback alike) -/
 theorem resolve_kernel_removes_lock (e : Entry) (l : Lock) (k : Bytes) (T C : Nat) :
